@@ -276,6 +276,13 @@ def _do_check(pid, tier, only, want_playback, P, sd, seed, t0):
     if not canary_ok:
         undecided.append("canary harness was not reported FAILURE: verifier results are not trusted")
 
+    # ---- mechanical side conditions (scripts): exit 0 ok, anything else => undecided
+    for sc in P.get("scripts", []):
+        rc, out, _ = run(["python3", str(VERIF / "tools" / sc), str(inject.REPO)], VERIF, timeout=300)
+        log("[driver] script %s rc=%d: %s" % (sc, rc, out.strip().splitlines()[0] if out.strip() else ""))
+        if rc != 0:
+            undecided.append("script %s: %s" % (sc, out.strip()[-300:]))
+
     # ---- Verus
     vres = verus_mod.run_all(pid, P, sd, tier)
     for v in vres:
